@@ -7,6 +7,7 @@ import (
 	"time"
 
 	"github.com/google/uuid"
+	hio "github.com/hprose/hprose-golang/v3/io"
 )
 
 // Named types of the harness.  The registry is exported to the case generator with
@@ -20,6 +21,24 @@ type MyF64 float64
 type MyBool bool
 type MyBytes []byte
 type MyInts []int
+type MyU32 uint32
+type MyU64 uint64
+type MyU8 uint8
+type MyI64 int64
+type MyF32 float32
+
+// single-field structs that Go stores directly in an interface word (pointer-shaped field)
+type OneM struct{ M map[string]int }
+type OneMM struct{ In OneM }
+type OneA1 struct{ A [1]*Inner }
+type OnePS struct{ P *string }
+
+// class and field names with characters outside the BMP (UTF-16 length differs from the rune count)
+type Gadget struct {
+	ID    int    `hprose:"𠀀id"`
+	Name  string `json:"名😀"`
+	Plain string
+}
 
 type Scalars struct {
 	B   bool
@@ -232,6 +251,9 @@ type Nested struct {
 
 var registry = map[string]reflect.Type{}
 
+// aliases: types registered with hprose under a class name that differs from the Go type name
+var aliases = map[reflect.Type]string{}
+
 func reg(v interface{}) { t := reflect.TypeOf(v); registry[t.Name()] = t }
 
 func init() {
@@ -240,9 +262,12 @@ func init() {
 		Scalars{}, PScalars{}, PU32{}, Named{}, Bigs{}, Times{}, Conts{}, Node{}, Node2{}, Tree{}, Graph{},
 		Tagged{}, Inner{}, Outer{}, Shared{}, One{}, OneS{}, OneP{}, Cx{}, Deep{}, Lst{}, Strs{}, BBTail{},
 		Empty{}, Nested{}, Member{},
+		MyU32(0), MyU64(0), MyU8(0), MyI64(0), MyF32(0), OneM{}, OneMM{}, OneA1{}, OnePS{}, Gadget{},
 	} {
 		reg(v)
 	}
+	hio.RegisterName("Gadget😀", (*Gadget)(nil))
+	aliases[reflect.TypeOf(Gadget{})] = "Gadget😀"
 }
 
 var (
